@@ -23,7 +23,14 @@ type Obligation struct {
 	CandLoop  int
 	Skip      bool // not claimed by the current unit: assumed, not solved
 	Cover     bool // vacuity cover: expected to be refutable (sat)
+	PC        string // path condition under which the obligation is stated
 	idx       int
+}
+
+type reachMark struct {
+	at  int
+	pc  string
+	pos int
 }
 
 type Item struct {
@@ -55,6 +62,7 @@ type VC struct {
 	callees       map[string]bool
 	intMode       bool
 	ringMode      bool
+	returnMarks   []reachMark // path conditions of the return instructions (vacuity guard)
 	afterEntry    bool
 	privateEntry  []string // storage references of by-value aggregate parameters
 	allocRefs     map[string]bool // terms used as the reference of an object allocated by this function
@@ -177,7 +185,7 @@ func (vc *VC) pos(p token.Pos) string {
 
 func (vc *VC) oblige(kind string, pc, t string, pos token.Pos, desc string) *Obligation {
 	vc.obCount[kind]++
-	ob := &Obligation{Kind: kind, Term: sImp(pc, t), Pos: vc.pos(pos), Desc: desc}
+	ob := &Obligation{Kind: kind, Term: sImp(pc, t), Pos: vc.pos(pos), Desc: desc, PC: pc}
 	fname := "lemma"
 	if vc.fn != nil {
 		fname = vc.fn.String() // includes type arguments for generic instances
